@@ -1,9 +1,96 @@
+import PbBss.Model.Dist
 import Driver.Util
-/-! line-protocol operations of the `Dist` models (stub: filled in by the owner of these models) -/
+/-! line-protocol operations of the `Dist` models (property C07); every model runs at `α := Float`, `β := CF`.
+
+```
+gauss    D pi μ[D] P[D*D] ell y[D]          -> log_pdf  logDetFull(P)
+gdiag    D pi μ[D] p[D] ell y[D]            -> log_pdf
+gsph     D pi μ[D] p ell y[D]               -> log_pdf
+gdiagcov D pi μ[D] c[D] y[D]                -> log_pdf  ell  p[D]         (with the scikit-learn helpers modelled)
+gsphcov  D pi μ[D] c y[D]                   -> log_pdf  ell  p
+cgauss   D pi logdet s[2D] y[2D]            -> log_pdf
+vmf      D pi tiny μ[D] κ ive y[D]          -> log_pdf  log_norm
+watson   D pi w[2D] κ h y[2D]               -> log_pdf  log_norm
+bingham  D pi eps U[2D*D] λ[D] y[2D]        -> log_pdf  norm  λ'[D]       (λ' = sorted + spread eigenvalues)
+cacg     D tiny U[2D*D] λ[D] y[2D]          -> log_pdf  quadratic_form
+```
+complex numbers travel as `re im`. -/
+open PbBss PbBss.Dist
 namespace Driver
 
+def cfl (a : Array String) (off i : Nat) : CF := ⟨fl a off (2 * i), fl a off (2 * i + 1)⟩
+
 def opsDist (a : Array String) : Option String :=
+  let D := tokNat a 1
   match a[0]! with
+  | "gauss" =>
+    let pi := tokFloat a 2
+    let μ : Fin D → Float := fun d => fl a 3 d.val
+    let P : Fin D → Fin D → Float := fun i j => fl a (3 + D) (i.val * D + j.val)
+    let ell := tokFloat a (3 + D + D * D)
+    let y : Fin D → Float := fun d => fl a (4 + D + D * D) d.val
+    some (fmtFloats [gaussLogPdf pi μ P ell y, logDetFull P])
+  | "gdiag" =>
+    let pi := tokFloat a 2
+    let μ : Fin D → Float := fun d => fl a 3 d.val
+    let p : Fin D → Float := fun d => fl a (3 + D) d.val
+    let ell := tokFloat a (3 + 2 * D)
+    let y : Fin D → Float := fun d => fl a (4 + 2 * D) d.val
+    some (fmtFloats [diagLogPdf pi μ p ell y])
+  | "gsph" =>
+    let pi := tokFloat a 2
+    let μ : Fin D → Float := fun d => fl a 3 d.val
+    let p := tokFloat a (3 + D)
+    let ell := tokFloat a (4 + D)
+    let y : Fin D → Float := fun d => fl a (5 + D) d.val
+    some (fmtFloats [sphLogPdf pi μ p ell y])
+  | "gdiagcov" =>
+    let pi := tokFloat a 2
+    let μ : Fin D → Float := fun d => fl a 3 d.val
+    let c : Fin D → Float := fun d => fl a (3 + D) d.val
+    let y : Fin D → Float := fun d => fl a (3 + 2 * D) d.val
+    some (fmtFloats ([diagOfCov pi μ c y, logDetDiag (precCholDiag c)] ++ (List.finRange D).map (precCholDiag c)))
+  | "gsphcov" =>
+    let pi := tokFloat a 2
+    let μ : Fin D → Float := fun d => fl a 3 d.val
+    let c := tokFloat a (3 + D)
+    let y : Fin D → Float := fun d => fl a (4 + D) d.val
+    let p := 1 / Float.sqrt c
+    some (fmtFloats [sphOfCov pi μ c y, logDetSpherical D p, p])
+  | "cgauss" =>
+    let pi := tokFloat a 2
+    let logdet := tokFloat a 3
+    let s : Fin D → CF := fun d => cfl a 4 d.val
+    let y : Fin D → CF := fun d => cfl a (4 + 2 * D) d.val
+    some (fmtFloats [cgaussLogPdf pi logdet s y])
+  | "vmf" =>
+    let pi := tokFloat a 2
+    let tiny := tokFloat a 3
+    let μ : Fin D → Float := fun d => fl a 4 d.val
+    let κ := tokFloat a (4 + D)
+    let iv := tokFloat a (5 + D)
+    let y : Fin D → Float := fun d => fl a (6 + D) d.val
+    some (fmtFloats [vmfLogPdf pi tiny μ κ iv y, vmfLogNorm D pi κ iv])
+  | "watson" =>
+    let pi := tokFloat a 2
+    let w : Fin D → CF := fun d => cfl a 3 d.val
+    let κ := tokFloat a (3 + 2 * D)
+    let h := tokFloat a (4 + 2 * D)
+    let y : Fin D → CF := fun d => cfl a (5 + 2 * D) d.val
+    some (fmtFloats [watsonLogPdf pi w κ h y, watsonLogNorm D pi h])
+  | "bingham" =>
+    let pi := tokFloat a 2
+    let eps := tokFloat a 3
+    let U : Fin D → Fin D → CF := fun i j => cfl a 4 (i.val * D + j.val)
+    let lam : Fin D → Float := fun d => fl a (4 + 2 * D * D) d.val
+    let y : Fin D → CF := fun d => cfl a (4 + 2 * D * D + D) d.val
+    some (fmtFloats ([binghamLogPdf pi eps U lam y, binghamNorm pi eps lam] ++ (List.finRange D).map (removeDup eps lam)))
+  | "cacg" =>
+    let tiny := tokFloat a 2
+    let U : Fin D → Fin D → CF := fun i j => cfl a 3 (i.val * D + j.val)
+    let lam : Fin D → Float := fun d => fl a (3 + 2 * D * D) d.val
+    let y : Fin D → CF := fun d => cfl a (3 + 2 * D * D + D) d.val
+    some (fmtFloats [cacgLogPdf tiny U lam y, cacgQuad tiny U lam (cacgNormalize tiny y)])
   | _ => none
 
 end Driver
